@@ -57,6 +57,9 @@ ASSUMPTIONS = [
     'INSERTs; identifier-set models use named INSERTs (unset = absent column)',
     'subtype checking is also decided for variants of one supertype (same class name and number, other subtype sets) checked '
     'one after the other in one process, and for a subtype added to the live metamodel between two checks',
+    'late family: the associations of a shape are defined and formalized by an operation of the history, after any number of '
+    'creations (the instances then hold raw values where referential attributes appear later); identifiers also cover the '
+    'referential attributes (sub/super, B.A_Id, C.(A_Id, B_Id), A.Next_Id); counts are compared in every formalized state',
     'a stage that reports violations ends the run (stages: command lines, identifier sets, association shapes, histories)',
     'bridgepoint.consistency_check is decided on BridgePoint-format rows of PE_PE, S_DT, S_CDT (plus the built-in globals with -g)',
     'the exit status of a tool is what the operating system reports for `python -m <tool> ...` (family P: real processes on the '
@@ -1352,6 +1355,100 @@ class HistModel(c02.CappedModel):
                 w.ref.insts[x].values['Id'] = keep
 
 
+
+class LateHistModel(HistModel):
+    '''The associations are defined and formalized by an operation of the history ('formalize', enabled once): instances
+    created before it hold raw values in what become referential attributes afterwards.  Counts are compared in the
+    formalized states only (before, the model has no associations to check).'''
+
+    def __init__(self, schema, caps):
+        HistModel.__init__(self, schema, caps, [])
+
+    def case(self, hist, op):
+        return dict(family='late', shape=self.schema.name, caps=self.caps, hist=hist, op=op)
+
+    def initial(self):
+        return [[]]
+
+    def build(self, hist):
+        import xtuml
+        w = c02.World()
+        w.ref = relmodel.Ref(self.schema)
+        w.handles, w.label, w.vals = [], {}, []
+        w.formal, w.early = False, []
+        w.m = xtuml.MetaModel(xtuml.IntegerGenerator())
+        for kind, attrs in self.schema.classes:
+            w.m.define_class(kind, list(attrs))
+        for kind, name, attrs in self.schema.uniques:
+            w.m.define_unique_identifier(kind, name, *attrs)
+        for op in hist:
+            self.run_impl(w, op)
+            self.run_ref(w, op)
+        w.obs = None
+        return w
+
+    def run_impl(self, w, op):
+        if op[0] == 'formalize':
+            for a in self.schema.assocs:
+                ass = w.m.define_association(a.rel, a.src, list(a.skeys), a.smany, a.scond, a.sphrase,
+                                             a.tgt, list(a.tkeys), a.tmany, a.tcond, a.tphrase)
+                ass.formalize()
+            return 'formalized'
+        return HistModel.run_impl(self, w, op)
+
+    def run_ref(self, w, op):
+        if op[0] == 'formalize':
+            w.formal = True
+            return 'formalized'
+        res = HistModel.run_ref(self, w, op)
+        if op[0] == 'new':
+            w.early.append(not w.formal)
+        return res
+
+    def observe(self, w):
+        if not w.formal:
+            w.obs = dict(pool=dict((k, [w.label.get(i, '?') for i in w.m.select_many(k)]) for k in self.schema.kinds()),
+                         nav={}, ref={})
+            return w.obs
+        return HistModel.observe(self, w)
+
+    def canon(self, w):
+        return json.dumps([HistModel.canon(self, w), w.formal, w.early])
+
+    def enabled(self, w):
+        ops = HistModel.enabled(self, w)
+        if w.formal:
+            return ops
+        return [o for o in ops if o[0] in ('new', 'delete')] + [['formalize']]
+
+    def probes(self, ctx, w, hist):
+        if not w.formal:
+            return
+        if any(w.early):
+            ctx.count('late_states_with_instances_older_than_their_associations')
+        HistModel.probes(self, ctx, w, hist)
+
+
+def late_models(ctx):
+    '''Shapes in which an identifier covers a referential attribute (so the stale raw value and the value read through the
+    link differ in what the identifier check must count), and two plain ones.'''
+    from mc.refs.relmodel import Schema
+    out = []
+    base = dict((s.name, s) for s in schemas.shapes([PAYLOAD]))
+    h = base['h_subsuper']
+    out.append((h, {'P': 1, 'S1': 2, 'S2': 1} if ctx.quick else {'P': 2, 'S1': 2, 'S2': 1}))
+    b = base['b_1_mc']
+    out.append((Schema('late_b_ident_over_ref', b.classes, b.assocs, list(b.uniques) + [('B', 'I2', ['A_Id'])]),
+                {'A': 2, 'B': 2} if ctx.quick else {'A': 2, 'B': 3}))
+    g = base['g_assoc_class']
+    out.append((Schema('late_g_ident_over_refs', g.classes, g.assocs, list(g.uniques) + [('C', 'I2', ['A_Id', 'B_Id'])]),
+                {'A': 1, 'B': 1, 'C': 2} if ctx.quick else {'A': 2, 'B': 1, 'C': 2}))
+    e = base['e_reflexive_1c_1c']
+    out.append((Schema('late_e_ident_over_ref', e.classes, e.assocs, list(e.uniques) + [('A', 'I2', ['Next_Id'])]),
+                {'A': 2} if ctx.quick else {'A': 3}))
+    return [LateHistModel(s, caps) for s, caps in out]
+
+
 E_CAPS = {
     'a_1c_1c': ({'A': 2, 'B': 2}, {'A': 2, 'B': 2}),
     'b_1_mc': ({'A': 1, 'B': 2}, {'A': 2, 'B': 2}),
@@ -1543,6 +1640,17 @@ def run(ctx):
         if ctx.violations:
             print('  violations reported; remaining shapes skipped', flush=True)
             return
+    for m in late_models(ctx):
+        res = explorer.bfs(ctx, m, chunk=8, label=m.schema.name)
+        total += res['states']
+        print('  %-28s caps=%s states=%d depth=%d closed=%s t=%.0fs' %
+              (m.schema.name, m.caps, res['states'], res['depth'], res['closed'], ctx.elapsed()), flush=True)
+        if ctx.violations:
+            print('  violations reported; remaining shapes skipped', flush=True)
+            return
+    ctx.require(ctx.n('late_states_with_instances_older_than_their_associations') >= 100,
+                'too few states whose instances are older than their associations (%d)' %
+                ctx.n('late_states_with_instances_older_than_their_associations'))
     for t in (tasks[0], tasks[len(tasks) // 2], tasks[-1]):
         ctx.sample(dict(task=t))
     ctx.sample(dict(composite_scenarios=[len(s) for s in C_SCENARIOS], options='all subsets of -r %s x -k %s' % (C_RELS, C_KINDS)))
@@ -1568,6 +1676,10 @@ def replay(ctx, case):
     if fam == 'hist':
         schema = schemas.by_name(case['shape'], [PAYLOAD])
         m = HistModel(schema, case['caps'], e_seeds(schema.name))
+        explorer.replay_case(ctx, m, case['hist'], case.get('op'))
+    elif fam == 'late':
+        m = [x for x in late_models(ctx) if x.schema.name == case['shape']][0]
+        m.caps = case['caps']
         explorer.replay_case(ctx, m, case['hist'], case.get('op'))
     elif fam == 'subsuper':
         f_check(ctx, case)
